@@ -30,6 +30,30 @@ type Case struct {
 	Plan  chunkio.Plan `json:"plan"`
 	Ops   []mutate.Op  `json:"ops,omitempty"`
 	Src   string       `json:"src"`
+	// Big, when set, stands for the input (kept out of the JSON): a struct whose fields 1..n are
+	// binaries of the given lengths filled with 'a', 'b', ... followed by Tail raw bytes
+	Big  []int  `json:"big,omitempty"`
+	Tail []byte `json:"tail,omitempty"`
+}
+
+// materialize builds the input of a symbolic (Big) case.
+func (c *Case) materialize() {
+	if len(c.Big) == 0 || len(c.Input) > 0 {
+		return
+	}
+	var fs []wm.Field
+	for i, n := range c.Big {
+		fs = append(fs, wm.Field{ID: int16(i + 1), V: wm.Binary(bytes.Repeat([]byte{byte('a' + i)}, n))})
+	}
+	c.Input = append(refcodec.Encode(wm.Struct(fs...)), c.Tail...)
+}
+
+// slim returns the case as it is stored in replay files.
+func (c Case) slim() Case {
+	if len(c.Big) > 0 {
+		c.Input = nil
+	}
+	return c
 }
 
 // outcome of one checkCase, for classification
@@ -191,6 +215,7 @@ func checkCase(c Case, out *outcome) error {
 }
 
 func run(t ev.TB, unit string, c Case) {
+	c.materialize()
 	var out outcome
 	err := withWatchdog(func() error { return checkCase(c, &out) })
 	// classification
@@ -230,7 +255,27 @@ func run(t ev.TB, unit string, c Case) {
 			return m
 		})
 	}
-	ev.Report(t, unit, c, err)
+	ev.Report(t, unit, c.slim(), err)
+}
+
+// TestBigBinaries: valid messages with several binaries on both sides of the 1 MiB threshold of
+// the streaming reader (above it the reader grows its buffer instead of trusting the declared
+// length), decoded by both readers under the drawn segmentation, re-encoded and skipped like
+// every other input. A few fixed shapes per run plus drawn lengths.
+func TestBigBinaries(t *testing.T) {
+	const mib = 1 << 20
+	rapid.Check(t, func(t *rapid.T) {
+		n := rapid.IntRange(1, 3).Draw(t, "nbig")
+		var sizes []int
+		for i := 0; i < n; i++ {
+			sizes = append(sizes, rapid.SampledFrom([]int{mib - 1, mib, mib + 1, mib + 4096, mib + mib/2}).Draw(t, "size"))
+		}
+		c := Case{Type: byte(wm.KStruct), Plan: chunkio.GenPlan(t, "plan"), Src: "big-binaries", Big: sizes}
+		if rapid.Bool().Draw(t, "trailing") {
+			c.Tail = rapid.SliceOfN(rapid.Byte(), 1, 8).Draw(t, "trail")
+		}
+		run(t, "big-binaries", c)
+	})
 }
 
 func clip(b []byte, n int) []byte {
@@ -332,6 +377,7 @@ func replayOne(t *testing.T, f *ev.Failure) bool {
 	if err := json.Unmarshal(f.Case, &c); err != nil {
 		t.Fatalf("bad replay case: %v", err)
 	}
+	c.materialize()
 	var out outcome
 	ev.Report(t, f.Unit, c, withWatchdog(func() error { return checkCase(c, &out) }))
 	return true
